@@ -16,7 +16,7 @@ from ..world import rmtree, scratch_root
 ID = "C15"
 LEVEL = "exploration"
 RULE = (
-    "ENUMERATED end-to-end: every sequence set of one or two elements, each element an atom from {0..N+1, *} or a range of two "
+    "ENUMERATED end-to-end: every sequence set of one or two elements, each element an atom from {0..N+1, *} (UID sets: {0, 1, first, a gap, last, last+1, *}; all of 0..last+1 for N <= 2) or a range of two "
     "such atoms, for every mailbox size N in 0..3 (quick) / 0..5 (thorough), in each of FETCH, UID FETCH, STORE, UID STORE, COPY, "
     "UID COPY, MOVE, UID MOVE, SEARCH <set>, SEARCH UID <set>, UID SEARCH <set>, UID EXPUNGE, on a mailbox whose UIDs are sparse "
     "(UID != sequence number). Function level: every set of up to three elements for N <= 5 through sequence_set_to_list / "
@@ -77,8 +77,20 @@ def set_text(elts, singles):
     return ",".join(parts)
 
 
-def enumerate_sets(n, max_elts=2):
-    atoms = list(range(0, n + 2)) + ["*"]
+def uid_atoms(n):
+    """Atoms for UID sets over the sparse UIDs 2,4,..,2n: below the first, the first, a gap, the last
+    and ABOVE the last UID (the seeded change seeded/C15 showed that 0..N+1 never exceeds the highest
+    UID, so `6:1`-like ranges that start above it were never written)."""
+    top = 2 * n
+    if n <= 2:
+        nums = list(range(0, top + 2))
+    else:
+        nums = sorted({0, 1, 2, 3, top, top + 1})
+    return nums + ["*"]
+
+
+def enumerate_sets(n, max_elts=2, uid_mode=False):
+    atoms = uid_atoms(n) if uid_mode else list(range(0, n + 2)) + ["*"]
     base = [((a, a), True) for a in atoms] + [((a, b), False) for a in atoms for b in atoms]
     for k in range(1, max_elts + 1):
         for combo in itertools.product(base, repeat=k):
@@ -87,15 +99,20 @@ def enumerate_sets(n, max_elts=2):
             yield elts, set_text(elts, singles)
 
 
-def nontrivial(elts, n):
+def nontrivial(elts, n, uid_mode=False):
+    top = 2 * n if uid_mode else n
     for lo, hi in elts:
         if lo == "*" or hi == "*":
             return True
         if lo > hi:
             return True
-        if lo < 1 or hi > n or lo > n:
+        if lo < 1 or hi > top or lo > top:
             return True
     return False
+
+
+def is_uid_mode(cmd):
+    return cmd.startswith("UID ") and cmd != "UID SEARCH" or cmd in ("SEARCH UID", "UID SEARCH UID")
 
 
 # ------------------------------------------------------------- end-to-end
@@ -164,7 +181,7 @@ class Bench:
 def run_case(b: Bench, cmd: str, elts, text: str):
     """-> (clause or None, detail).  May set b.dirty."""
     n = b.n
-    uid_mode = cmd.startswith("UID ") and cmd != "UID SEARCH" or cmd in ("SEARCH UID", "UID SEARCH UID")
+    uid_mode = is_uid_mode(cmd)
     seqs = list(range(1, n + 1))
     if uid_mode:
         want, _ = denote(elts, b.uids, b.uids[-1] if b.uids else None)
@@ -302,16 +319,17 @@ def _slice(args):
     b = None
     out = {"evaluations": 0, "nontrivial": 0, "violations": [], "samples": []}
     try:
-        for elts, text in enumerate_sets(n, max_elts):
+        um = is_uid_mode(cmd)
+        for elts, text in enumerate_sets(n, max_elts, um):
             if b is None or b.dirty:
                 if b is not None:
                     b.close()
                 b = Bench(n)
             clause, detail = run_case(b, cmd, elts, text)
             out["evaluations"] += 1
-            if nontrivial(elts, n):
+            if nontrivial(elts, n, um):
                 out["nontrivial"] += 1
-            if len(out["samples"]) < 2 and nontrivial(elts, n):
+            if len(out["samples"]) < 2 and nontrivial(elts, n, um):
                 out["samples"].append({"N": n, "cmd": cmd, "set": text})
             if clause and clause.startswith("C15"):
                 trace = {"kind": "e2e", "N": n, "cmd": cmd, "set": text, "elts": [[lo, hi] for lo, hi in elts]}
@@ -361,11 +379,17 @@ def function_level(max_n=5):
                 if invalid != refused or (not refused and got != want):
                     if len(viol) < 20:
                         viol.append(("C15.fn.seq", f"sequence_set_to_list({list(combo)!r}, {n}) -> {'Bad' if refused else sorted(got)}; expected {'Bad' if invalid else sorted(want)}", combo, n))
-                # uid mode (clipped as the callers do), then mapped through the uid table
-                umax = uids[-1] if uids else 1
+        # uid mode (clipped as the callers do), then mapped through the uid table; atoms reach above the last uid
+        uatoms = [a for a in uid_atoms(n) if a != 0]
+        ubase = [a for a in uatoms] + [(a, b) for a in uatoms for b in uatoms]
+        umax = uids[-1] if uids else 1
+        for k in (1, 2):
+            if k == 2 and n > 3:
+                break
+            for combo in itertools.product(ubase, repeat=k):
+                elts = [(c, c) if not isinstance(c, tuple) else c for c in combo]
+                count += 1
                 wantu, _ = denote(elts, uids, uids[-1] if uids else None)
-                if any(lo == 0 or hi == 0 for lo, hi in elts):
-                    continue
                 try:
                     ms = list(combo)
                     if clip_uid_set is not None:
@@ -404,7 +428,7 @@ def extra(tier, seed):
 # --------------------------------------------------------------- hypothesis
 def strategy(tier, shard, nshards):
     def elt(n):
-        atom = st.one_of(st.integers(0, n + 1), st.just("*"))
+        atom = st.one_of(st.integers(0, n + 1), st.integers(0, 2 * n + 1), st.just("*"))
         return st.one_of(atom.map(lambda a: ((a, a), True)), st.tuples(atom, atom).map(lambda t: ((t[0], t[1]), False)))
 
     return st.integers(6, 9).flatmap(
@@ -435,7 +459,7 @@ def execute(trace) -> CaseResult:
     finally:
         b.close()
     res.steps = 1
-    res.nontrivial = nontrivial(elts, n)
+    res.nontrivial = nontrivial(elts, n, is_uid_mode(trace["cmd"]))
     res.labels = [trace["cmd"], f"N={n}"]
     res.sample = [{"N": n, "cmd": trace["cmd"], "set": trace["set"], "result": clause or "ok"}]
     if clause:
